@@ -24,7 +24,21 @@ let parse_record s : Z.record =
   | _ -> failwith ("bad record " ^ s)
 let parse_records s = if s = "-" then [] else Stdlib.List.map parse_record (split ';' s)
 
-let req = Z.req_simple
+(* The REAL instances (Model/ZoneReal.v): Rdata::equals = RdataM.equals (C19's model), the name parser =
+   NameWire.parse_uncompressed_name (C14's model).  [req] is ZoneReal.req_real, except that the branch
+   "equals did not return a boolean" (proved unreachable: equals_req_real) fails the run instead of
+   answering false; likewise a Panic of the parser (parse_real_faithful).  The specification side uses the
+   independent RFC characterisations ZoneRealS.spec_req (= RdataEqS.spec_equals) / spec_rdata_name. *)
+let req c t a b = match RdataM.equals c t a b with
+  | Res.Ok v -> v
+  | _ -> failwith "model: Rdata::equals did not return a boolean"
+let sreq = ZoneRealS.spec_req
+let parse rd =
+  (match NameWire.parse_uncompressed_name rd true with
+   | Res.Panic -> failwith "model: parse_uncompressed_name panicked"
+   | _ -> ());
+  ZoneReal.parse_real rd
+let sparse = ZoneRealS.spec_rdata_name
 
 let show_rdatas l = String.concat "+" (Stdlib.List.map hex l)
 let show_single ((ttl, rds) : Z.single_rrset) = Printf.sprintf "%d:%s" (int_of_n ttl) (show_rdatas rds)
@@ -89,9 +103,9 @@ let op_lookup apex cls recs_s qn_s qtys_s =
     String.concat " / " (Stdlib.List.concat_map (fun (u, s) ->
       (* the specification's answer, its names spelled as the zone spells them (c06_lookup_exact) *)
       Stdlib.List.map (fun ty -> show_spec show_lookup
-          (Option.map (S.spell_lookup a acc) (S.spec_lookup req a c acc qn ty u s))) qtys
-      @ [ show_spec show_addrs (Option.map (S.spell_addrs a acc) (S.spec_lookup_addrs req a c acc qn u s));
-          show_spec show_all (Option.map (S.spell_all a acc) (S.spec_lookup_all req a c acc qn u s)) ]) bools) in
+          (Option.map (S.spell_lookup a acc) (S.spec_lookup sreq a c acc qn ty u s))) qtys
+      @ [ show_spec show_addrs (Option.map (S.spell_addrs a acc) (S.spec_lookup_addrs sreq a c acc qn u s));
+          show_spec show_all (Option.map (S.spell_all a acc) (S.spec_lookup_all sreq a c acc qn u s)) ]) bools) in
   model ^ " | " ^ spec
 
 let sorted l = Stdlib.List.sort compare l
@@ -116,14 +130,14 @@ let show_state_spec a c (acc : Z.record list) =
   (* names printed as the zone spells them (c20_iter_names_spelled) *)
   let sp n = show_name (S.spelled a acc n) in
   let nodes = sorted (Stdlib.List.map (fun n ->
-      Printf.sprintf "%s[%s]" (sp n) (String.concat "|" (Stdlib.List.map show_rrset (S.spec_rrsets req c acc n))))
+      Printf.sprintf "%s[%s]" (sp n) (String.concat "|" (Stdlib.List.map show_rrset (S.spec_rrsets sreq c acc n))))
       names) in
   let rrs = sorted (Stdlib.List.concat_map (fun n ->
-      Stdlib.List.map (fun r -> Printf.sprintf "%s:%s" (sp n) (show_rrset r)) (S.spec_rrsets req c acc n))
+      Stdlib.List.map (fun r -> Printf.sprintf "%s:%s" (sp n) (show_rrset r)) (S.spec_rrsets sreq c acc n))
       names) in
   Printf.sprintf "N{%s} R{%s} S%s T%s" (String.concat ";" nodes) (String.concat ";" rrs)
-    (show_opt show_single (S.single_of req c acc la (n_of_int 6)))
-    (show_opt show_single (S.single_of req c acc la (n_of_int 2)))
+    (show_opt show_single (S.single_of sreq c acc la (n_of_int 6)))
+    (show_opt show_single (S.single_of sreq c acc la (n_of_int 2)))
 
 let op_history apex cls recs_s =
   let a = parse_name apex and c = n_of_int (int_of_string cls) in
@@ -172,12 +186,12 @@ let op_validate apex cls wide recs_s =
   let model = match Z.zone_build req (Z.zone_new a c w) recs with
     | None -> "panic-in-build"
     | Some z ->
-      (match V.zone_validate V.parse_name_simple z with
+      (match V.zone_validate parse z with
        | Res.Ok l -> show_issues (fun i -> if V.issue_is_error i then "!e" else "!w") l
        | Res.Err e -> "err " ^ show_err e
        | Res.Panic -> "panic") in
   let acc = S.accepted a c recs in
-  let spec = match VS.spec_validate req V.parse_name_simple a c w acc with
+  let spec = match VS.spec_validate sreq sparse a c w acc with
     | Some l -> show_issues (fun i -> if VS.spec_is_warning i then "!w" else "!e") l
     | None -> "err InvalidRdata" in
   model ^ " | " ^ spec
@@ -190,7 +204,7 @@ let op_rdset cls ty rds_s =
   let rds = Stdlib.List.map unhex (split ',' rds_s) in
   let buf = Stdlib.List.fold_left (fun b rd -> RdataBuf.buf_insert req c t b rd) [] rds in
   let show l = if l = [] then "none" else String.concat "+" (Stdlib.List.map hex l) in
-  "ok " ^ show (RdataBuf.buf_rdatas buf) ^ " | ok " ^ show (S.dedup_first req c rds t)
+  "ok " ^ show (RdataBuf.buf_rdatas buf) ^ " | ok " ^ show (S.dedup_first sreq c rds t)
 
 let () = run_lines (fun f ->
   match f with
